@@ -321,6 +321,12 @@ func rulePatchJSON(c *rCase) (interface{}, string) {
 			m[key] = []interface{}{ok1, ok2, bad}
 		case "dup":
 			m[key] = []interface{}{ok1, ok2, ok1}
+		case "dup_respelled":
+			if key == "uris" {
+				m[key] = []interface{}{ok1, ok2, "HTTPS://a.example/x"}
+			} else {
+				m[key] = []interface{}{ok1, ok2, "K1"}
+			}
 		default:
 			panic("harness: list value " + c.V)
 		}
@@ -543,7 +549,7 @@ func randomRule(r *rand.Rand) rCase {
 		return rCase{Kind: "svc", S: &s, Wrap: pickS(r, "add", 0.6, "replace"), Dup: r.Float64() < 0.07}
 	case 7:
 		a := []string{"remove-public-keys", "remove-services", "add-also-known-as", "remove-also-known-as"}[r.Intn(4)]
-		v := []string{"ok_one", "ok_two", "empty", "not_array", "missing_value", "bad_entry_first", "bad_entry_last", "dup"}[r.Intn(8)]
+		v := []string{"ok_one", "ok_two", "empty", "not_array", "missing_value", "bad_entry_first", "bad_entry_last", "dup", "dup_respelled"}[r.Intn(9)]
 
 		return rCase{Kind: "list", Action: a, V: v}
 	case 8:
